@@ -1,11 +1,10 @@
-; requires: kv strings bank rnsresolve
+; requires: kv strings sepfree bank rnsresolve
 ; x/notifications store layout (concrete string mode only)
 (define-fun notif_prefix () Str "Notification/")
 (define-fun notif_key ((to Str) (from Str) (t Int)) Str (str.++ notif_prefix to "/" from "/" (itoa t)))
 (define-fun block_key ((owner Str) (blocked Str)) Str (str.++ notif_prefix owner "/" blocked))
 ; the keys an inbox query for address a scans: everything under "Notification/<a>/"
 (define-fun in_inbox ((k Str) (a Str)) Bool (str.prefixof (str.++ notif_prefix a "/") k))
-(define-fun slashfree ((s Str)) Bool (not (str.contains s "/")))
 ; decimal rendering of integers contains no separator and is injective (strconv / fmt %d)
 (assert (forall ((n Int)) (! (and (not (str.contains (itoa n) "/")) (> (str.len (itoa n)) 0)) :pattern ((itoa n)))))
 (assert (forall ((n Int) (m Int)) (! (=> (= (itoa n) (itoa m)) (= n m)) :pattern ((itoa n) (itoa m)))))
